@@ -28,7 +28,7 @@ def plan(tier, seed):
             regs.append('c19::Sqrt<cnl::scaled_integer<%s, cnl::power<%d>>, %d, 2, %d, 2>::reg("scaled|%s|%d")' % (rep, e, d, e, rep.replace('vf::', ''), e))
         for e in (-4, 2):
             regs.append('c19::Sqrt<cnl::scaled_integer<%s, cnl::power<%d, 10>>, %d, 2, %d, 10>::reg("scaled10|%s|%d")' % (rep, e, d, e, rep.replace('vf::', ''), e))
-    cases = 20000 if quick else 500000
+    cases = 60000 if quick else 800000
     enum_max = 2 ** 16 if quick else 2 ** 24
     units = [Unit('C19-gxx-%d' % i, 'gxx', 'props/C19.h', part, rc_cases=cases, enum_max=enum_max, chunk=12)
              for i, part in enumerate(split(regs, 14))]
